@@ -201,6 +201,11 @@ fn combination(g: &mut Xo, pop: &Pop, cases: usize, seed: u64, rep: &mut Report)
                     other => Err((format!("all weights are zero: a zero-weight error is documented, got {other:?}"), "wrong-error")),
                 };
             }
+            if log.is_empty() {
+                if let SelOut::Err(t) = &out {
+                    return Err((format!("the combination has positive total weight but refused to select: {t}"), "undocumented-error"));
+                }
+            }
             if log.len() != 1 {
                 return Err((format!("exactly one member must be used per selection, log = {log:?}"), "delegation-count"));
             }
